@@ -207,6 +207,20 @@ func cancelRunVM(prog compiler.CompileOutput, limits runtime.CoreLimits, k int64
 			outcome = "HANG"
 			pc.k.Store(1) // release whatever is still running
 		}
+		// the VM stays usable: a second Wait on the now idle VM returns at once (nothing is left locked behind
+		// the run, however it ended)
+		if outcome != "HANG" {
+			again := make(chan struct{}, 1)
+			go func() {
+				vm.Wait()
+				again <- struct{}{}
+			}()
+			select {
+			case <-again:
+			case <-time.After(cancelWatchdog):
+				outcome = "HANG"
+			}
+		}
 	}()
 	gor := settleGoroutines(base)
 	polls := pc.polls.Load() - p0
